@@ -21,7 +21,7 @@ use lightmotif::pwm::ScoringMatrix;
 use lightmotif::scan::{Hit, Scanner};
 use lightmotif::seq::StripedSequence;
 
-use crate::c01_score::{any_striped, MAXL};
+use crate::c01_score::MAXL;
 use crate::nd;
 
 const NI: f32 = f32::NEG_INFINITY;
@@ -58,12 +58,58 @@ pub fn matrix(mx: usize) -> (ScoringMatrix<Dna>, &'static [[f32; 5]]) {
     (ScoringMatrix::new(Background::uniform(), d), rows)
 }
 
+/// Striped DNA sequence with R rows and *concrete* length L (symbolic content).
+/// A symbolic length makes the row count of every score buffer symbolic (the
+/// `L < M` early return of `score_rows_into` merges a 0-row and an R-row matrix)
+/// and multiplies the size of the encoding by the unwinding bound (measured:
+/// out of memory), so lengths are enumerated per instance here.
+fn striped_fixed<const R: usize, const L: usize>() -> (StripedSequence<Dna, U32>, [Nucleotide; MAXL]) {
+    let mut m = DenseMatrix::<Nucleotide, U32>::new(R);
+    let mut lin = [Nucleotide::N; MAXL];
+    for c in 0..32 {
+        for r in 0..R {
+            let i = c * R + r;
+            let s = if i < L { crate::refs::nuc(nd::u8_in(0, 4)) } else { Nucleotide::N };
+            m[r][c] = s;
+            lin[i] = s;
+        }
+    }
+    (StripedSequence::<Dna, U32>::verif_new_unchecked(m, L), lin)
+}
+
 fn ref_score(rows: &[[f32; 5]], lin: &[Nucleotide; MAXL], i: usize) -> f32 {
     let mut e = 0.0f32;
     for j in 0..rows.len() {
         e += rows[j][lin[i + j].as_index()];
     }
     e
+}
+
+/// Input restriction that keeps the encoding small: at most `KC` cells of the whole
+/// score matrix reach the byte threshold (they are the candidates the scanner
+/// re-scores one by one). Computed from the public discretisation API, cell by
+/// cell, padding cells included. The candidate loops of `next()` / `max()` are
+/// unwound KC+2 times (per-loop `--unwindset`, checked by unwinding assertions).
+pub const KC: usize = 4;
+
+fn assume_few_candidates<const R: usize>(pssm: &ScoringMatrix<Dna>, lin: &[Nucleotide; MAXL], t: f32) {
+    let dm = pssm.to_discrete();
+    let tb = dm.scale(t);
+    let m = dm.matrix().rows();
+    let mut cands = 0usize;
+    for c in 0..32 {
+        for r in 0..R {
+            let i = c * R + r;
+            let mut b = 0u8;
+            for j in 0..m {
+                b = b.saturating_add(dm.matrix()[j][lin[i + j].as_index()]);
+            }
+            if b >= tb {
+                cands += 1;
+            }
+        }
+    }
+    nd::assume(cands <= KC);
 }
 
 fn any_threshold() -> f32 {
@@ -74,31 +120,34 @@ fn any_threshold() -> f32 {
 }
 
 /// C02: iterate to exhaustion.
-fn collect_body<const MX: usize, const R: usize, const BLOCK: usize, const K: usize>(arm: Dispatch) {
+fn collect_body<const MX: usize, const R: usize, const L: usize, const BLOCK: usize, const K: usize>(arm: Dispatch) {
     set_verif_override(Some(arm));
     let (pssm, rows) = matrix(MX);
     let m = rows.len();
-    let (mut st, lin, l) = any_striped::<Dna, U32, R>(0);
+    let (mut st, lin) = striped_fixed::<R, L>();
+    let l = L;
     st.configure(&pssm);
     let t = any_threshold();
     // oracle: qualifying positions
-    let mut want = [false; MAXL];
     let mut count = 0usize;
     let n = if l >= m { l + 1 - m } else { 0 };
-    for i in 0..32 * R {
-        if i < n && ref_score(rows, &lin, i) >= t {
-            want[i] = true;
-            count += 1;
+    for c in 0..32 {
+        for r in 0..R {
+            let i = c * R + r;
+            if i < n && ref_score(rows, &lin, i) >= t {
+                count += 1;
+            }
         }
     }
     nd::assume(count <= K);
+    assume_few_candidates::<R>(&pssm, &lin, t);
     let mut scanner = Scanner::new(&pssm, &st);
     scanner.threshold(t);
     scanner.block_size(BLOCK);
-    let mut got = [false; MAXL];
+    let mut got = [usize::MAX; 4];
     let mut returned = 0usize;
     let mut exhausted = false;
-    for _ in 0..K + 1 {
+    for k in 0..K + 1 {
         match scanner.next() {
             None => {
                 exhausted = true;
@@ -107,52 +156,60 @@ fn collect_body<const MX: usize, const R: usize, const BLOCK: usize, const K: us
             Some(hit) => {
                 let p = hit.position();
                 assert!(p < n, "hit outside [0, L-M]");
-                assert!(hit.score() == ref_score(rows, &lin, p), "hit carries a wrong score");
-                assert!(want[p], "hit below the threshold");
-                assert!(!got[p], "position yielded twice");
-                got[p] = true;
+                let want = ref_score(rows, &lin, p);
+                assert!(hit.score() == want, "hit carries a wrong score");
+                assert!(want >= t, "hit below the threshold");
+                for q in 0..k {
+                    assert!(got[q] != p, "position yielded twice");
+                }
+                got[k] = p;
                 returned += 1;
             }
         }
     }
     assert!(exhausted, "scanner yields more hits than qualifying positions");
     assert!(returned == count, "a qualifying position was not yielded");
-    crate::witness!(count == K && n > 0 && got[if n > 0 { n - 1 } else { 0 }], "K hits, one at the last position");
+    crate::witness!(count == K && n > 0 && (got[0] == n - 1 || got[1] == n - 1), "K hits, one at the last position");
     crate::witness!(l < m, "opt: sequence shorter than the motif");
     core::mem::forget(scanner);
 }
 
 /// C03: `PRE` calls of next(), then max().
-fn max_body<const MX: usize, const R: usize, const BLOCK: usize, const PRE: usize>(arm: Dispatch) {
+fn max_body<const MX: usize, const R: usize, const L: usize, const BLOCK: usize, const PRE: usize>(arm: Dispatch) {
     set_verif_override(Some(arm));
     let (pssm, rows) = matrix(MX);
     let m = rows.len();
-    let (mut st, lin, l) = any_striped::<Dna, U32, R>(0);
+    let (mut st, lin) = striped_fixed::<R, L>();
+    let l = L;
     st.configure(&pssm);
     let t = any_threshold();
     let n = if l >= m { l + 1 - m } else { 0 };
+    assume_few_candidates::<R>(&pssm, &lin, t);
     let mut scanner = Scanner::new(&pssm, &st);
     scanner.threshold(t);
     scanner.block_size(BLOCK);
-    let mut consumed = [false; MAXL];
-    for _ in 0..PRE {
+    let mut consumed = [usize::MAX; 2];
+    for k in 0..PRE {
         if let Some(hit) = scanner.next() {
             assert!(hit.position() < n);
-            consumed[hit.position()] = true;
+            consumed[k] = hit.position();
         }
     }
     let best: Option<Hit> = Iterator::max(scanner);
     // oracle over un-consumed positions
     let mut top = f32::NEG_INFINITY;
     let mut any = false;
-    for i in 0..32 * R {
-        if i < n && !consumed[i] {
-            let s = ref_score(rows, &lin, i);
-            if s >= t {
-                if !any || s > top {
-                    top = s;
+    for c in 0..32 {
+        for r in 0..R {
+            let i = c * R + r;
+            if i < n && consumed[0] != i && consumed[1] != i {
+                let s = ref_score(rows, &lin, i);
+                if s >= t {
+                    if !any || s > top {
+                        top = s;
+                    }
+                    any = true;
                 }
-                any = true;
             }
         }
     }
@@ -161,7 +218,7 @@ fn max_body<const MX: usize, const R: usize, const BLOCK: usize, const PRE: usiz
         Some(hit) => {
             assert!(any, "max() returned a hit although no position meets the threshold");
             let p = hit.position();
-            assert!(p < n && !consumed[p], "best hit outside the un-consumed positions");
+            assert!(p < n && consumed[0] != p && consumed[1] != p, "best hit outside the un-consumed positions");
             assert!(hit.score() == ref_score(rows, &lin, p), "best hit carries a wrong score");
             assert!(hit.score() >= t, "best hit below the threshold");
             assert!(hit.score() == top, "best hit is not a maximum-scoring position");
@@ -172,43 +229,54 @@ fn max_body<const MX: usize, const R: usize, const BLOCK: usize, const PRE: usiz
 }
 
 // --- C02 -------------------------------------------------------------------------------
-//@ C02 quick 2400 scanner to exhaustion: matrix 0 (M=2), R=1 (L in 0..=32 incl. L<M, L=0), default block, AVX2 arm, <=2 hits
-harness!(avx2vec, 34, c02_m0_r1_b256_avx2, collect_body::<0, 1, 256, 2>(Dispatch::Avx2));
-//@ C02 quick 2400 scanner to exhaustion: matrix 0 (M=2), R=1, default block, generic arm (u8 kernel with +=), <=2 hits
-harness!(avx2vec, 34, c02_m0_r1_b256_generic, collect_body::<0, 1, 256, 2>(Dispatch::Generic));
-//@ C02 quick 2400 scanner to exhaustion: matrix 1 (M=1), R=2 (L in 33..=64), block 1, AVX2 arm, <=2 hits
-harness!(avx2vec, 34, c02_m1_r2_b1_avx2, collect_body::<1, 2, 1, 2>(Dispatch::Avx2));
-//@ C02 quick 2400 scanner to exhaustion: matrix 0 (M=2), R=2, block 2 (= R: next block starts on the look-ahead row), AVX2 arm
-harness!(avx2vec, 34, c02_m0_r2_b2_avx2, collect_body::<0, 2, 2, 2>(Dispatch::Avx2));
-//@ C02 quick 2400 scanner to exhaustion: matrix 3 (finite wildcard column), R=1, block 256, AVX2 arm
-harness!(avx2vec, 34, c02_m3_r1_b256_avx2, collect_body::<3, 1, 256, 2>(Dispatch::Avx2));
-//@ C02 quick 2400 scanner to exhaustion: matrix 2 (M=3, near-ties), R=1, block 256, SSE2 arm (generic u8 kernel)
-harness!(avx2vec, 34, c02_m2_r1_b256_sse2, collect_body::<2, 1, 256, 2>(Dispatch::Sse2));
-//@ C02 thorough 7200 scanner to exhaustion: matrix 2 (M=3), R=2, block 1, AVX2 arm, <=3 hits
-harness!(avx2vec, 34, c02_m2_r2_b1_avx2, collect_body::<2, 2, 1, 3>(Dispatch::Avx2));
-//@ C02 thorough 7200 scanner to exhaustion: matrix 5 (M=3, sum of bytes > 255), R=3 (L in 65..=96), block 2, AVX2 arm
-harness!(avx2vec, 34, c02_m5_r3_b2_avx2, collect_body::<5, 3, 2, 2>(Dispatch::Avx2));
-//@ C02 thorough 7200 scanner to exhaustion: matrix 4 (constant rows), R=1, block 256, AVX2 arm
-harness!(avx2vec, 34, c02_m4_r1_b256_avx2, collect_body::<4, 1, 256, 2>(Dispatch::Avx2));
-//@ C02 thorough 7200 scanner to exhaustion: matrix 5, R=2, block 3 (R+1), generic arm
-harness!(avx2vec, 34, c02_m5_r2_b3_generic, collect_body::<5, 2, 3, 2>(Dispatch::Generic));
+// name: matrix, rows, length, block size, dispatcher arm
+//@ C02 quick 3600 scanner to exhaustion: matrix 0 (M=2), R=1, L=32 (full row), default block, AVX2 arm, <=2 hits | mem=14 | unwindset=scan::Scanner<.*Iterator>::next#0:6
+harness!(avx2vec, 34, c02_m0_r1_l32_b256_avx2, collect_body::<0, 1, 32, 256, 2>(Dispatch::Avx2));
+//@ C02 quick 3600 scanner to exhaustion: matrix 0 (M=2), R=1, L=1 (shorter than the motif), AVX2 arm | mem=14 | unwindset=scan::Scanner<.*Iterator>::next#0:6
+harness!(avx2vec, 34, c02_m0_r1_l1_b256_avx2, collect_body::<0, 1, 1, 256, 2>(Dispatch::Avx2));
+//@ C02 quick 3600 scanner to exhaustion: matrix 0 (M=2), empty sequence (L=0, no rows), generic arm | mem=14 | unwindset=scan::Scanner<.*Iterator>::next#0:6
+harness!(avx2vec, 34, c02_m0_r0_l0_b256_generic, collect_body::<0, 0, 0, 256, 2>(Dispatch::Generic));
+//@ C02 quick 3600 scanner to exhaustion: matrix 0 (M=2), R=1, L=20, default block, generic arm (u8 kernel of the dispatcher fall-back) | mem=14 | unwindset=scan::Scanner<.*Iterator>::next#0:6
+harness!(avx2vec, 34, c02_m0_r1_l20_b256_generic, collect_body::<0, 1, 20, 256, 2>(Dispatch::Generic));
+//@ C02 quick 3600 scanner to exhaustion: matrix 1 (M=1), R=2, L=40, block 1, AVX2 arm | mem=14 | unwindset=scan::Scanner<.*Iterator>::next#0:6
+harness!(avx2vec, 34, c02_m1_r2_l40_b1_avx2, collect_body::<1, 2, 40, 1, 2>(Dispatch::Avx2));
+//@ C02 quick 3600 scanner to exhaustion: matrix 0 (M=2), R=2, L=64, block 2 (= R: the next block would start on the look-ahead row), AVX2 arm | mem=14 | unwindset=scan::Scanner<.*Iterator>::next#0:6
+harness!(avx2vec, 66, c02_m0_r2_l64_b2_avx2, collect_body::<0, 2, 64, 2, 2>(Dispatch::Avx2));
+//@ C02 quick 3600 scanner to exhaustion: matrix 3 (finite wildcard column), R=1, L=20, AVX2 arm | mem=14 | unwindset=scan::Scanner<.*Iterator>::next#0:6
+harness!(avx2vec, 34, c02_m3_r1_l20_b256_avx2, collect_body::<3, 1, 20, 256, 2>(Dispatch::Avx2));
+//@ C02 quick 3600 scanner to exhaustion: matrix 2 (M=3, near-ties), R=1, L=12, SSE2 arm (generic u8 kernel) | mem=14 | unwindset=scan::Scanner<.*Iterator>::next#0:6
+harness!(avx2vec, 34, c02_m2_r1_l12_b256_sse2, collect_body::<2, 1, 12, 256, 2>(Dispatch::Sse2));
+//@ C02 thorough 10800 scanner to exhaustion: matrix 2 (M=3), R=2, L=50, block 1, AVX2 arm, <=3 hits | mem=14 | unwindset=scan::Scanner<.*Iterator>::next#0:6
+harness!(avx2vec, 34, c02_m2_r2_l50_b1_avx2, collect_body::<2, 2, 50, 1, 3>(Dispatch::Avx2));
+//@ C02 thorough 10800 scanner to exhaustion: matrix 5 (M=3, sum of bytes > 255), R=3, L=70, block 2, AVX2 arm | mem=14 | unwindset=scan::Scanner<.*Iterator>::next#0:6
+harness!(avx2vec, 66, c02_m5_r3_l70_b2_avx2, collect_body::<5, 3, 70, 2, 2>(Dispatch::Avx2));
+//@ C02 thorough 10800 scanner to exhaustion: matrix 4 (constant rows, scale factor 0), R=1, L=16, AVX2 arm | mem=14 | unwindset=scan::Scanner<.*Iterator>::next#0:6
+harness!(avx2vec, 34, c02_m4_r1_l16_b256_avx2, collect_body::<4, 1, 16, 256, 2>(Dispatch::Avx2));
+//@ C02 thorough 10800 scanner to exhaustion: matrix 5, R=2, L=33, block 3 (R+1), generic arm | mem=14 | unwindset=scan::Scanner<.*Iterator>::next#0:6
+harness!(avx2vec, 66, c02_m5_r2_l33_b3_generic, collect_body::<5, 2, 33, 3, 2>(Dispatch::Generic));
+//@ C02 thorough 10800 scanner to exhaustion: matrix 0 (M=2), R=1, L=2 (= M), AVX2 arm | mem=14 | unwindset=scan::Scanner<.*Iterator>::next#0:6
+harness!(avx2vec, 34, c02_m0_r1_l2_b256_avx2, collect_body::<0, 1, 2, 256, 2>(Dispatch::Avx2));
 
 // --- C03 -------------------------------------------------------------------------------
-//@ C03 quick 2400 scanner max(): matrix 0 (M=2), R=1 (L in 0..=32), block 256, AVX2 arm, no prior next()
-harness!(avx2vec, 34, c03_m0_r1_b256_avx2_pre0, max_body::<0, 1, 256, 0>(Dispatch::Avx2));
-//@ C03 quick 2400 scanner max(): matrix 2 (M=3, near-ties under byte rounding), R=1, block 256, AVX2 arm, no prior next()
-harness!(avx2vec, 34, c03_m2_r1_b256_avx2_pre0, max_body::<2, 1, 256, 0>(Dispatch::Avx2));
-//@ C03 quick 2400 scanner max(): matrix 2 (M=3), R=2 (L in 33..=64), block 1, AVX2 arm, no prior next()
-harness!(avx2vec, 34, c03_m2_r2_b1_avx2_pre0, max_body::<2, 2, 1, 0>(Dispatch::Avx2));
-//@ C03 quick 2400 scanner max(): matrix 0 (M=2), R=2, block 1, AVX2 arm, one prior next()
-harness!(avx2vec, 34, c03_m0_r2_b1_avx2_pre1, max_body::<0, 2, 1, 1>(Dispatch::Avx2));
-//@ C03 quick 2400 scanner max(): matrix 0 (M=2), R=1, block 256, generic arm, one prior next()
-harness!(avx2vec, 34, c03_m0_r1_b256_generic_pre1, max_body::<0, 1, 256, 1>(Dispatch::Generic));
-//@ C03 thorough 7200 scanner max(): matrix 5 (M=3), R=2, block 2, AVX2 arm, two prior next()
-harness!(avx2vec, 34, c03_m5_r2_b2_avx2_pre2, max_body::<5, 2, 2, 2>(Dispatch::Avx2));
-//@ C03 thorough 7200 scanner max(): matrix 3 (finite wildcard), R=1, block 256, AVX2 arm
-harness!(avx2vec, 34, c03_m3_r1_b256_avx2_pre0, max_body::<3, 1, 256, 0>(Dispatch::Avx2));
-//@ C03 thorough 7200 scanner max(): matrix 2 (M=3), R=3 (L in 65..=96), block 2, AVX2 arm
-harness!(avx2vec, 34, c03_m2_r3_b2_avx2_pre0, max_body::<2, 3, 2, 0>(Dispatch::Avx2));
-//@ C03 thorough 7200 scanner max(): matrix 1 (M=1), R=2, block 3, SSE2 arm, one prior next()
-harness!(avx2vec, 34, c03_m1_r2_b3_sse2_pre1, max_body::<1, 2, 3, 1>(Dispatch::Sse2));
+//@ C03 quick 3600 scanner max(): matrix 0 (M=2), R=1, L=32, default block, AVX2 arm, no prior next() | mem=14 | unwindset=scan::Scanner<.*Iterator>::next#0:6;scan::Scanner<.*Iterator>::max#0:6
+harness!(avx2vec, 34, c03_m0_r1_l32_b256_avx2_pre0, max_body::<0, 1, 32, 256, 0>(Dispatch::Avx2));
+//@ C03 quick 3600 scanner max(): matrix 2 (M=3, near-ties under byte rounding), R=1, L=16, AVX2 arm, no prior next() | mem=14 | unwindset=scan::Scanner<.*Iterator>::next#0:6;scan::Scanner<.*Iterator>::max#0:6
+harness!(avx2vec, 34, c03_m2_r1_l16_b256_avx2_pre0, max_body::<2, 1, 16, 256, 0>(Dispatch::Avx2));
+//@ C03 quick 3600 scanner max(): matrix 2 (M=3), R=2, L=40, block 1, AVX2 arm, no prior next() | mem=14 | unwindset=scan::Scanner<.*Iterator>::next#0:6;scan::Scanner<.*Iterator>::max#0:6
+harness!(avx2vec, 34, c03_m2_r2_l40_b1_avx2_pre0, max_body::<2, 2, 40, 1, 0>(Dispatch::Avx2));
+//@ C03 quick 3600 scanner max(): matrix 0 (M=2), R=2, L=64, block 1, AVX2 arm, one prior next() | mem=14 | unwindset=scan::Scanner<.*Iterator>::next#0:6;scan::Scanner<.*Iterator>::max#0:6
+harness!(avx2vec, 34, c03_m0_r2_l64_b1_avx2_pre1, max_body::<0, 2, 64, 1, 1>(Dispatch::Avx2));
+//@ C03 quick 3600 scanner max(): matrix 0 (M=2), R=1, L=1 (shorter than the motif), generic arm | mem=14 | unwindset=scan::Scanner<.*Iterator>::next#0:6;scan::Scanner<.*Iterator>::max#0:6
+harness!(avx2vec, 34, c03_m0_r1_l1_b256_generic_pre0, max_body::<0, 1, 1, 256, 0>(Dispatch::Generic));
+//@ C03 quick 3600 scanner max(): matrix 0 (M=2), R=1, L=20, generic arm, one prior next() | mem=14 | unwindset=scan::Scanner<.*Iterator>::next#0:6;scan::Scanner<.*Iterator>::max#0:6
+harness!(avx2vec, 34, c03_m0_r1_l20_b256_generic_pre1, max_body::<0, 1, 20, 256, 1>(Dispatch::Generic));
+//@ C03 thorough 10800 scanner max(): matrix 5 (M=3), R=2, L=64, block 2, AVX2 arm, two prior next() | mem=14 | unwindset=scan::Scanner<.*Iterator>::next#0:6;scan::Scanner<.*Iterator>::max#0:6
+harness!(avx2vec, 66, c03_m5_r2_l64_b2_avx2_pre2, max_body::<5, 2, 64, 2, 2>(Dispatch::Avx2));
+//@ C03 thorough 10800 scanner max(): matrix 3 (finite wildcard), R=1, L=20, AVX2 arm | mem=14 | unwindset=scan::Scanner<.*Iterator>::next#0:6;scan::Scanner<.*Iterator>::max#0:6
+harness!(avx2vec, 34, c03_m3_r1_l20_b256_avx2_pre0, max_body::<3, 1, 20, 256, 0>(Dispatch::Avx2));
+//@ C03 thorough 10800 scanner max(): matrix 2 (M=3), R=3, L=80, block 2, AVX2 arm | mem=14 | unwindset=scan::Scanner<.*Iterator>::next#0:6;scan::Scanner<.*Iterator>::max#0:6
+harness!(avx2vec, 66, c03_m2_r3_l80_b2_avx2_pre0, max_body::<2, 3, 80, 2, 0>(Dispatch::Avx2));
+//@ C03 thorough 10800 scanner max(): matrix 1 (M=1), R=2, L=33, block 3, SSE2 arm, one prior next() | mem=14 | unwindset=scan::Scanner<.*Iterator>::next#0:6;scan::Scanner<.*Iterator>::max#0:6
+harness!(avx2vec, 66, c03_m1_r2_l33_b3_sse2_pre1, max_body::<1, 2, 33, 3, 1>(Dispatch::Sse2));
+//@ C03 thorough 10800 scanner max(): matrix 4 (constant rows), R=1, L=10, AVX2 arm | mem=14 | unwindset=scan::Scanner<.*Iterator>::next#0:6;scan::Scanner<.*Iterator>::max#0:6
+harness!(avx2vec, 34, c03_m4_r1_l10_b256_avx2_pre0, max_body::<4, 1, 10, 256, 0>(Dispatch::Avx2));
